@@ -187,8 +187,36 @@ struct C10 : Scenario {
 			else { e.type = 'd'; e.mode = rng.chance(1, 4) ? 0555 : 0755; }
 			p.fs.push_back(e);
 		}
+		if (rng.chance(1, 8)) {
+			// a pre-existing symlink to a file outside the root at the very path an entry is written to, optionally inside a
+			// directory the user may not write (the unlink before the create then fails)
+			bool ro = rng.chance(1, 2);
+			std::string d = ro ? "ro" : "";
+			if (ro) { FsEnt e; e.type = 'd'; e.path = "/w/x/y/root/ro"; e.mode = rng.chance(1, 2) ? 0555 : 01777; e.uid = e.gid = rng.chance(1, 2) ? 0 : (int) p.geti("euid"); p.fs.push_back(e); }
+			FsEnt l; l.type = 'l'; l.path = "/w/x/y/root/" + (ro ? d + "/" : std::string("")) + "victim"; l.target = rng.chance(1, 2) ? "/etc/passwd" : "../canary/file";
+			if (ro) l.target = rng.chance(1, 2) ? "/etc/passwd" : "../../canary/file";
+			l.uid = l.gid = 0;
+			bool clash = false;
+			for (auto &x : p.fs) if (x.path == l.path) clash = true;
+			if (!clash) {
+				p.fs.push_back(l);
+				Member m;
+				m.level = (int) rng.below(3);
+				m.os = 'U';
+				bool link = rng.chance(1, 3);
+				m.kind = link ? 'l' : 'f';
+				m.method = link ? "-lhd-" : "-lh0-";
+				if (!link) { m.plain = to_bytes("overwritten?\n"); m.data = m.plain; }
+				std::string nm = (ro ? d + "/" : std::string("")) + "victim" + (link ? "|/etc" : "");
+				if (m.level == 2) { ExtHdr e; e.type = 1; e.data = to_bytes(ro ? (link ? std::string("victim|/etc") : std::string("victim")) : nm); m.ext.push_back(e); if (ro) { ExtHdr e2; e2.type = 2; e2.data = {'r', 'o', 0xff}; m.ext.push_back(e2); } }
+				else m.inname = to_bytes(nm);
+				encode_unix_meta(m, link ? 0120777 : 0100644, -1, -1, 1000000000, 0, false);
+				p.members.push_back(m);
+				if (rng.chance(1, 2)) p.sets("fsfaults", strf("unlink:%d:%d", (int) rng.below(3), rng.chance(1, 2) ? EPERM : EACCES));
+			}
+		}
 		// faults
-		if (rng.chance(1, 5)) {
+		if (rng.chance(1, 5) && p.gets("fsfaults").empty()) {
 			static const char *calls[] = {"mkdir", "open", "unlink", "symlink", "chmod", "chown", "fchmod", "fchown", "utime", "stat", "fdopen"};
 			static const int errs[] = {EACCES, ENOSPC, EIO, EPERM, ENOENT, EEXIST, EROFS, ENOMEM, ELOOP, ENAMETOOLONG};
 			p.sets("fsfaults", strf("%s:%d:%d", calls[rng.below(11)], (int) rng.below(4), errs[rng.below(10)]));
